@@ -10,7 +10,11 @@ definitely_tag_free(cls, s)
     text up to the next ';' consists of name characters only (an entity
     reference is '&dtml-name;' or '&dtml.fmt.fmt-name;': a blank, line end
     or any other character before the ';' means it is not one).  String
-    class: no '%(' followed later by ')'.
+    class: no '%(' followed later by a ')' after which a format can start
+    (a tag is '%(' ... ')' directly followed by digits / point / a
+    letter, or by one of '[', ']', '!'; ')' followed by a blank, a sign, '#',
+    other punctuation or the end of the text closes
+    no tag).
 
 cleanly_tagged(cls, src, spans)
     True only if every occurrence of a tag opener in `src` is the start of a
@@ -42,12 +46,29 @@ def possible_entity_at(s, i):
     return all(c in ENTITY_BODY for c in s[i + 5:e])
 
 
+import re
+
+EPFS_FMT = re.compile(r'[0-9]*[.]?[0-9]*[a-zA-Z]|[\[\]!]')
+
+
+def possible_epfs_at(s, i):
+    """s[i:] starts with '%(': can a tag start here?  Only if some later
+    ')' is directly followed by a format."""
+    e = s.find(')', i + 2)
+    while e >= 0:
+        if EPFS_FMT.match(s, e + 1):
+            return True
+        e = s.find(')', e + 1)
+    return False
+
+
 def definitely_tag_free(cls, s):
     for op, closer in openers(cls):
         i = s.find(op)
-        if op.startswith('&dtml'):
+        if op.startswith('&dtml') or op == '%(':
+            possible = possible_entity_at if op != '%(' else possible_epfs_at
             while i >= 0:
-                if possible_entity_at(s, i):
+                if possible(s, i):
                     return False
                 i = s.find(op, i + 1)
             continue
@@ -64,6 +85,9 @@ def cleanly_tagged(cls, src, spans):
             if i not in starts:
                 if op.startswith('&dtml'):
                     if possible_entity_at(src, i):
+                        return False
+                elif op == '%(':
+                    if possible_epfs_at(src, i):
                         return False
                 elif src.find(closer, i + len(op)) >= 0:
                     return False
